@@ -140,10 +140,10 @@ int main(int argc, char** argv) {
     vf::Run run("C19", argc, argv); R = &run;
     OpmLog::removeAllBackends();
     Parser parser; P = &parser; PC = deckgen::lenient_context();
-    run.rule = "objects: one synthesised instance per parser deck name (2 value sets); records of representative keywords with every default pattern (embedded and trailing); data arrays of every length 0..3*columns+1 with and without default/repeat runs; raw-string records (UDQ DEFINE / ACTIONX condition) of every token count 1..16 with a '/' at every position or none; hand-written specials (TITLE, raw-string, code, double-slash, table collection, strings with blanks/wildcards/slashes, UDA, extreme numbers); shipped decks; oracle: parse(print(d)) has the same structure, ints, strings, default flags, floats within 1e-9 relative (printed precision 10 digits), and print(parse(print(d))) == print(d); distinct = distinct printed texts";
+    run.rule = "objects: one synthesised instance per parser deck name (4 value sets incl. strings with blanks, '/' and '--' in quotes); the first record of every instance with each single token / each trailing run / all tokens defaulted (thorough: every subset for <= 16 tokens); records of representative keywords with every default pattern (embedded and trailing); data arrays of every length 0..3*columns+1 with and without default/repeat runs; raw-string records (UDQ DEFINE / ACTIONX condition) of every token count 1..16 with a '/' at every position or none; hand-written specials (TITLE, raw-string, code, double-slash, table collection, strings with blanks/wildcards/slashes, UDA, extreme numbers); shipped decks; oracle: parse(print(d)) has the same structure, ints, strings, default flags, floats within 1e-9 relative (printed precision 10 digits), and print(parse(print(d))) == print(d); distinct = distinct printed texts";
     run.assumptions = {"value alphabet of engine/deckgen.hpp", "doubles compared at the printed precision (10 significant digits => 1e-9 relative)", "lenient ParseContext for one-keyword decks"};
     std::vector<std::string> rejected;
-    std::vector<std::vector<deckgen::Instance>> cats = {deckgen::catalogue(parser, 0, &rejected), deckgen::catalogue(parser, 1, nullptr)};
+    std::vector<std::vector<deckgen::Instance>> cats = {deckgen::catalogue(parser, 0, &rejected), deckgen::catalogue(parser, 1, nullptr), deckgen::catalogue(parser, 2, nullptr), deckgen::catalogue(parser, 3, nullptr)};
     auto sp = specials();
 
     if (!run.replay_path.empty()) {
@@ -154,8 +154,38 @@ int main(int argc, char** argv) {
         return run.finish();
     }
     if (run.shard == 0) run.count("catalogue_instances", cats[0].size());
-    for (int v = 0; v < 2; ++v) for (size_t i = 0; i < cats[v].size(); ++i) { if (!run.mine()) continue; std::string c = "C " + std::to_string(v) + " " + std::to_string(i); run.current(c); check_deck(cats[v][i].text(), cats[v][i].name + "[" + cats[v][i].cls + "]", cats[v][i].name, c); if (run.samples.size() < 2 && i % 97 == 5) run.sample_str(cats[v][i].text()); }
+    for (int v = 0; v < 4; ++v) for (size_t i = 0; i < cats[v].size(); ++i) { if (!run.mine()) continue; std::string c = "C " + std::to_string(v) + " " + std::to_string(i); run.current(c); check_deck(cats[v][i].text(), cats[v][i].name + "[" + cats[v][i].cls + "]", cats[v][i].name, c); if (run.samples.size() < 2 && i % 97 == 5) run.sample_str(cats[v][i].text()); }
     for (size_t i = 0; i < sp.size(); ++i) { if (!run.mine()) continue; std::string c = "S " + std::to_string(i); run.current(c); check_deck(sp[i].text, sp[i].name, "special:" + sp[i].name, c); }
+    // default patterns on the first record of EVERY catalogue instance (metadata driven): quick = each single token defaulted and
+    // each trailing run defaulted; thorough = every subset of tokens defaulted for records of <= 16 tokens.  A record whose
+    // tokens are ALL defaulted reports under one key per size class (the lone-slash defect is one defect, not one per keyword).
+    {
+        auto esc = [](const std::string& t) { std::string e; for (char c : t) { if (c == '\n') e += "\\n"; else e += c; } return e; };
+        for (size_t i = 0; i < cats[0].size(); ++i) {
+            const auto& in = cats[0][i];
+            if (in.freetext || in.lines.size() < 2) continue;
+            std::vector<std::string> tk = deckgen::tokens(in.lines[1]);
+            if (tk.empty() || tk.back() != "/") continue;
+            tk.pop_back();
+            const int n = (int)tk.size();
+            if (n == 0 || n > 24) continue;
+            bool plain = true; for (auto& t : tk) if (t.find('*') != std::string::npos) plain = false;
+            if (!plain) continue;
+            std::vector<uint32_t> masks;
+            if (run.thorough() && n <= 16) for (uint32_t m = 1; m < (1u << n); ++m) masks.push_back(m);
+            else { for (int b = 0; b < n; ++b) masks.push_back(1u << b); for (int b = 1; b < n; ++b) masks.push_back(((1u << n) - 1) & ~((1u << b) - 1)); masks.push_back((1u << n) - 1); }
+            const std::string sizecls = in.cls.substr(0, in.cls.find('+'));
+            for (uint32_t m : masks) {
+                if (!run.mine()) continue;
+                std::string rec = " "; for (int b = 0; b < n; ++b) rec += ((m >> b) & 1 ? std::string("1*") : tk[b]) + " ";
+                std::string t = in.prelude + in.lines[0] + "\n" + rec + "/\n";
+                for (size_t l = 2; l < in.lines.size(); ++l) t += in.lines[l] + "\n";
+                const bool all = m == (1u << n) - 1;
+                check_deck(t, in.name + " first record with default mask " + std::to_string(m), all ? "defaults-all:" + sizecls : "defaults-cat:" + in.name, "X " + esc(t));
+                run.count("catalogue_default_patterns");
+            }
+        }
+    }
     // default patterns on representative records
     struct Rec { std::string kw, pre, post; std::vector<std::string> val; };
     std::vector<Rec> recs = {
